@@ -26,14 +26,14 @@ pub mod c02;
 pub mod c03;
 pub mod c04;
 pub mod c05;
-stub_property!(c06, C06, "C06");
-stub_property!(c07, C07, "C07");
+pub mod c06;
+pub mod c07;
 stub_property!(c08, C08, "C08");
 pub mod c09;
 pub mod c10;
 pub mod c11;
 pub mod c12;
-stub_property!(c13, C13, "C13");
+pub mod c13;
 stub_property!(c14, C14, "C14");
 stub_property!(c15, C15, "C15");
 pub mod c16;
